@@ -966,12 +966,44 @@ class Session:
                 # already merged: only the no-op (same group) is a valid call
                 kept = nan_lead
             return {"feature": feat, "mode": "group", "discarded": float("nan"), "kept": kept, "kind": kindw, "what": "nan"}
+        if mode == "replace" and model.kind[feat] == "quant":
+            # on a quantitative feature the leader is the interval's upper bound: 'replace' moves
+            # that bound (the old bound stays in the group as a member).  Generated so that the
+            # leaders stay sorted: the new bound lies strictly between the neighbouring leaders.
+            finite = [lead for lead in real if math.isfinite(lead)]
+            if not finite:
+                return None
+            lead = finite[op["a"] % len(finite)]
+            pos = [i for i, x in enumerate(real) if same(x, lead)][0]
+            prev_lead = real[pos - 1] if pos > 0 else None
+            next_lead = real[pos + 1] if pos + 1 < len(real) else None
+            members = [m for m in model.members(feat, lead) if not isinstance(m, str)]
+            if op["dir"]:
+                hi = next_lead if next_lead is not None and math.isfinite(next_lead) else lead + max(1.0, abs(lead))
+                lo = max(members)
+                new_bound = (lo + hi) / 2
+            else:
+                below = [m for m in members if m < lead] + ([prev_lead] if prev_lead is not None else [])
+                lo = max(below) if below else lead - max(1.0, abs(lead))
+                new_bound = (lo + lead) / 2
+            new_bound = float(new_bound)
+            if not math.isfinite(new_bound) or model.group_of(feat, new_bound) is not None:
+                return None
+            if prev_lead is not None and not new_bound > prev_lead:
+                return None
+            if next_lead is not None and not new_bound < next_lead:
+                return None
+            if same(new_bound, lead):
+                return None
+            return {"feature": feat, "mode": "replace", "discarded": lead, "kept": new_bound, "kind": kindw, "what": "replace", "moves_bound": True}
         if mode == "replace":
             if model.kind[feat] != "qual" or not real:
                 return None
             lead = real[op["a"] % len(real)]
-            new_name = f"renamed_{op['b'] % 7}"
-            if model.group_of(feat, new_name) is not None:
+            # a fresh name: known to no fitted feature (a name that another class-specific copy of
+            # the column already knows would be in the probe frame and legitimately change group)
+            new_name = f"renamed_{op.get('id', 0)}_{op['b'] % 7}"
+            if any(model.group_of(f, new_name) is not None for f in model.features):
                 return None
             return {"feature": feat, "mode": "replace", "discarded": lead, "kept": new_name, "kind": kindw, "what": "replace"}
         if len(real) < 2:
@@ -1009,6 +1041,8 @@ class Session:
         outcome = outcomes[0]
         self.log.add("live", "edit", digest(canon(edit)), outcome[0])
         self.stats.fault({"group": "edit_group", "nan": "edit_nan", "replace": "edit_replace"}[edit["what"]])
+        if edit.get("moves_bound"):
+            self.stats.probe("edit_replace_moves_quantile_bound")
         quant_down = edit["kind"] == "quant" and edit["what"] == "group" and not edit.get("up", True)
         sig = {"mode": edit["mode"], "what": edit["what"], "kind": edit["kind"]}
         if quant_down:
@@ -1068,7 +1102,8 @@ class Session:
                 if nan_edit and after[0] == "reject":
                     continue
                 raise _Fail("C17", "transform_after_edit", f"{where}: transform({name}) -> {after[0]}: {str(after[1])[:200]}", dict(sig, exception=type(after[1]).__name__))
-            self.check_partition(edit, feat, frame, before[name][1], after[1], where + f" on {name}", sig, changed)
+            if not edit.get("moves_bound"):
+                self.check_partition(edit, feat, frame, before[name][1], after[1], where + f" on {name}", sig, changed)
             self.check_model("C17", frame, after, where + f" on {name}")
         if changed:
             self.nontrivial_flags.add("edit_changed_partition")
